@@ -95,6 +95,16 @@ def _put_back(world: World, src: Path, secrets_seed: int) -> None:
     boot.SECRETS.reseed(secrets_seed)
 
 
+def csrf_records(world: World) -> list[str]:
+    """The stored records of accepted CSRF tokens (read with a private connection)."""
+    import sqlite3
+    con = sqlite3.connect(world.db_file)
+    try:
+        return [r[0] for r in con.execute('select jti from "Token" where token_type = 4')]
+    finally:
+        con.close()
+
+
 def run_burst(world: World, actor_id: str, requests: list[dict], sched_seed: int,
               forced: list[int] | None = None, check_orders: bool = True) -> dict:
     """Returns {"results": [Response..], "schedule": [...], "linearizable": bool, "orders": [...], ...}."""
@@ -114,6 +124,7 @@ def run_burst(world: World, actor_id: str, requests: list[dict], sched_seed: int
     world.start()
     boot.SECRETS.reseed(secrets_seed)
 
+    state_before = abstract_state(world.state())
     burst = preempt.Burst(random.Random(sched_seed), forced=forced)
     fns = [(lambda r=r: serve(world, actor_id, r, threaded=True)) for r in requests]
     burst.run(fns)
@@ -143,7 +154,7 @@ def run_burst(world: World, actor_id: str, requests: list[dict], sched_seed: int
         world.fired("db.lock_timeout")
     outcome = {"results": results, "schedule": burst.schedule, "aborted": aborted, "state": conc_state,
                "linearizable": None, "orders": [], "interleaved": _interleaved(burst.schedule),
-               "csrf_rows": csrf_rows}
+               "csrf_rows": csrf_rows, "changed": conc_abs != state_before, "strategy": burst.strategy}
     for i, (req, resp) in enumerate(zip(requests, results)):
         world.record(actor_id, req["method"], req["url"], resp.status, resp.body, "burst")
     if check_orders:
